@@ -77,6 +77,11 @@ fn bound1(proto: &Proto) -> Vec<Variation> {
     for m in [Mode::TT, Mode::SS, Mode::TS, Mode::ST] {
         out.push(Variation { mode: m, tag: "rekeys", ..d.clone() });
     }
+    // out-of-order delivery (specification 11.4): a stateful receiver is pointed at each message's nonce with
+    // set_receiving_nonce - forwards and BACKWARDS - and must accept exactly what the specification's SetNonce +
+    // DecryptWithAd accepts, returning the written payload
+    out.push(Variation { mode: Mode::TT, tag: "reorder", ..d.clone() });
+    out.push(Variation { mode: Mode::ST, tag: "reorder", ..d.clone() });
     out
 }
 
@@ -104,6 +109,21 @@ fn ops_of(proto: &Proto, v: &Variation) -> Vec<Op> {
             }
         }
         ops = with;
+    }
+    if v.tag == "reorder" {
+        use crate::exec::{Cap, Msg};
+        // replace the transport part: the initiator writes 6 messages, the responder reads them in the order 3,0,5,1,4,2
+        let keep = 2 * proto.n_msgs() + 4;
+        ops.truncate(keep);
+        let stateless_w = v.mode == Mode::ST;
+        let hs_written = (0..proto.n_msgs()).filter(|k| sess::writer(*k) == Side::I).count();
+        for j in 0..6usize {
+            ops.push(if stateless_w { Op::SWrite { side: Side::I, nonce: j as u64, plen: 3 + j, cap: Cap::Roomy } } else { Op::TWrite { side: Side::I, plen: 3 + j, cap: Cap::Roomy } });
+        }
+        for j in [3usize, 0, 5, 1, 4, 2] {
+            ops.push(Op::SetRecvNonce { side: Side::R, n: j as u64 });
+            ops.push(Op::TRead { side: Side::R, msg: Msg::Wire(Side::I, hs_written + j), cap: Cap::Roomy });
+        }
     }
     if v.tag == "rekeys" {
         // the 8 transport messages are 16 ops at the end: rekeys after the 2nd, 4th and 6th message
